@@ -79,12 +79,12 @@ func zzTicketKey(name string) ticketKey {
 //verif:stub crypto/hmac.New zzStubHmacNew
 //verif:expect roundtrip tampered
 //verif:assume AES-CTR keystream and HMAC-SHA256 are uninterpreted functions; HMAC is injective on the (key, message) pairs that occur (instance-level axiom standing in for unforgeability)
-//verif:doc encryptTicket / decryptTicket with 1..2 symbolic ticket keys, a state of 0..3 symbolic bytes and a symbolic IV: decrypt(encrypt(s)) == s under the same keys (also when the sealing key is second in the list); flipping any single byte (symbolic position, symbolic non-zero xor) of IV, ciphertext or MAC, truncating the ticket below IV+MAC size, or sealing under a key that is not configured yields nil.
+//verif:doc encryptTicket / decryptTicket with 1..2 symbolic ticket keys, a state of 0..3 (thorough 0..19, crossing an AES block) symbolic bytes and a symbolic IV: decrypt(encrypt(s)) == s under the same keys (also when the sealing key is second in the list); flipping any single byte (symbolic position, symbolic non-zero xor) of IV, ciphertext or MAC, truncating the ticket below IV+MAC size, or sealing under a key that is not configured yields nil.
 func zzC35TicketRoundtripAndTamper() {
 	zzHmacCalls = nil
 	cfg := &Config{Rand: zzRandReader{}}
 	k1, k2 := zzTicketKey("k1"), zzTicketKey("k2")
-	state := verifBytes("state", verifChoice("statelen", 4))
+	state := verifBytes("state", verifChoice("statelen", zzTierN(4, 20)))
 	enc, err := cfg.encryptTicket(state, []ticketKey{k1})
 	verifAssert(err == nil && len(enc) == 16+len(state)+32, "ticket-layout")
 	if err != nil {
